@@ -2,7 +2,9 @@
 # Entry point of every check: run.sh <property> <quick|thorough>
 # Rebuilds the harness (it links pkg/moq from the repository under test) and the moq binary from the
 # repository's current working tree, then runs the check. Exit 0 held / 1 violation / 2 inconclusive.
-cd /verif || exit 2
+here=$(cd "$(dirname "$0")" && pwd)
+cd "$here" || exit 2
+export VERIF_ROOT="${VERIF_ROOT:-$here}"
 . ./env.sh || exit 2
 mkdir -p bin evidence replay
 if ! go build -o bin/vcheck ./cmd/vcheck 2>bin/build.err; then
